@@ -76,6 +76,21 @@ def events(rng, homs):
                 m2, c2, J2 = 3, (0, 1, 1), Js[0]
                 yield "inertia_add", {"m": m, "c": c, "J": Jf, "m2": m2, "c2": c2, "J2": [x for row in J2 for x in row]}, 1.0, \
                     (lambda mk=mk: (mk() + SpatialInertia(float(m2), np.array(c2, dtype=float), np.array(J2, dtype=float))).A), "SpatialInertia+"
+                # a body that is joined to several others: ONE live base inertia used in two sums, in both operand
+                # positions, and multiplied afterwards; every event is judged against the defining data
+                base = mk()
+                P1 = SpatialInertia(float(m2), np.array(c2, dtype=float), np.array(J2, dtype=float))
+                m3, c3, J3 = 4, (2, 0, -1), Js[1]
+                P2 = SpatialInertia(float(m3), np.array(c3, dtype=float), np.array(J3, dtype=float))
+                add1 = {"m": m, "c": c, "J": Jf, "m2": m2, "c2": c2, "J2": [x for row in J2 for x in row]}
+                add2 = {"m": m, "c": c, "J": Jf, "m2": m3, "c2": c3, "J2": [x for row in J3 for x in row]}
+                yield "inertia_add", add1, 1.0, (lambda base=base, P1=P1: (base + P1).A), "SpatialInertia+(live,first)"
+                yield "inertia_add", add2, 1.0, (lambda base=base, P2=P2: (base + P2).A), "SpatialInertia+(live,second)"
+                yield "inertia_add", add1, 1.0, (lambda base=base, P1=P1: (P1 + base).A), "SpatialInertia+(live,commuted)"
+                yield "inertia", {"m": m, "c": c, "J": Jf}, 1.0, (lambda base=base: base.A), "SpatialInertia(after sums)"
+                a = pts[7]
+                yield "inertia_mul", {"m": m, "c": c, "J": Jf, "a": a}, 1.0, \
+                    (lambda base=base, a=a: (base * C["SpatialAcceleration"](np.array(a, dtype=float))).A), "SpatialInertia*acceleration(after sums)"
     for h in homs:
         n = h["qn"]
         f = {"q": h["q"], "t": [h["num"][i][3] // n for i in range(3)], "d": h["den"] // n}
